@@ -43,12 +43,13 @@ func decodeEntities(s string) (string, bool) {
 	return sb.String(), true
 }
 
-// validRunes drops invalid bytes and U+FFFD like the escapejs loop does.
+// validRunes: the characters of the input — everything but invalid bytes (a U+FFFD written in the
+// input is a character like any other)
 func validRunes(s string) []rune {
 	var out []rune
 	for i := 0; i < len(s); {
 		r, w := utf8.DecodeRuneInString(s[i:])
-		if r != utf8.RuneError {
+		if r != utf8.RuneError || w > 1 {
 			out = append(out, r)
 		}
 		i += w
